@@ -70,6 +70,12 @@ func p7LibSeeds() []p7Seed {
 		seeds = append(seeds, p7Seed{Name: "lib-detached-data-leaf-k1", Blob: b, Signer: keys.Leaf(1), Key: keys.K(1), Wrong: keys.C(2), SameName: samePlate(keys.Leaf(1)),
 			Detached: content, HasAttrs: true, Producer: "library"})
 	}
+	// a certificate whose serial number has its top bit set (DER: leading 00 octet), attached content
+	hb := keys.Cert(pkix.Name{CommonName: "verif high-bit serial", Organization: []string{"verif"}}, new(big.Int).SetBytes([]byte{0xf1, 0xe2, 0xd3, 0xc4, 0xb5, 0xa6, 0x97, 0x88}), &keys.K(1).PublicKey, keys.K(1))
+	if b, err := pkcs7.SignPKCS7(keys.K(1), hb, pkcs7.OIDData, content); err == nil {
+		seeds = append(seeds, p7Seed{Name: "lib-detached-data-highbit-serial-k1", Blob: b, Signer: hb, Key: keys.K(1), Wrong: keys.C(2), SameName: samePlate(hb),
+			Detached: content, HasAttrs: true, Producer: "library"})
+	}
 	img := []byte("pretend image stream hashed by authenticode")
 	b, err := authenticode.SignAuthenticode(keys.K(1), keys.C(1), bytes.NewReader(img), crypto.SHA256)
 	if err != nil {
@@ -574,6 +580,89 @@ func p7Edits(s p7Seed) []p7Edit {
 			}
 			return true
 		})
+	}
+	// other encodings of the signer's serial number
+	add("signer serial number without its leading zero octet (a negative number with the same low bits)", func(t *p7Tree) bool {
+		v := ias(t).Children[1].Val
+		if len(v) < 2 || v[0] != 0 {
+			return false
+		}
+		ias(t).Children[1].Val = v[1:]
+		return true
+	})
+	add("signer serial number with the sign bit flipped by a 0xff octet in front", func(t *p7Tree) bool {
+		ias(t).Children[1].Val = append([]byte{0xff}, ias(t).Children[1].Val...)
+		return true
+	})
+	add("signer serial number with redundant leading zero octets", func(t *p7Tree) bool {
+		ias(t).Children[1].Val = append([]byte{0, 0}, ias(t).Children[1].Val...)
+		return true
+	})
+	// unauthenticated attributes ([1] after the signature): nothing in there is signed
+	unauth := func(t *p7Tree, attrs ...*der.Node) {
+		t.si.Children = append(t.si.Children, der.Cons(0xa1, attrs...))
+	}
+	attr := func(oid []byte, val *der.Node) *der.Node {
+		return der.Cons(0x30, der.Prim(0x06, oid), der.Cons(0x31, val))
+	}
+	add("content replaced; the new content's digest supplied as an UNSIGNED messageDigest attribute", func(t *p7Tree) bool {
+		if t.attrs == nil || len(t.ci.Children) != 2 {
+			return false
+		}
+		flipLeaf(t.ci.Children[1].Children[0])
+		unauth(t, attr(refp7.OIDMessageDigest, der.Prim(0x04, sha256Of(t.ci.Children[1].Children[0].Content()))))
+		return true
+	})
+	add("inner content type replaced; the new type supplied as an UNSIGNED contentType attribute", func(t *p7Tree) bool {
+		if t.attrs == nil {
+			return false
+		}
+		t.ci.Children[0].Val = der.OID(1, 2, 840, 113549, 1, 7, 5)
+		unauth(t, attr(refp7.OIDContentType, der.Prim(0x06, der.OID(1, 2, 840, 113549, 1, 7, 5))))
+		return true
+	})
+	add("signed attributes dropped; the same attributes supplied as UNSIGNED attributes", func(t *p7Tree) bool {
+		if t.attrs == nil {
+			return false
+		}
+		var ch []*der.Node
+		for _, c := range t.si.Children {
+			if c != t.attrs {
+				ch = append(ch, c)
+			}
+		}
+		t.si.Children = ch
+		unauth(t, t.attrs.Children...)
+		return true
+	})
+	for _, first := range []bool{true, false} {
+		first := first
+		pos := map[bool]string{true: "first", false: "last"}[first]
+		for _, sigKind := range []string{"garbage signature", "the genuine signature value"} {
+			sigKind := sigKind
+			add("content replaced; a forged signer entry naming the SAME certificate ("+sigKind+") carrying the new digest placed "+pos, func(t *p7Tree) bool {
+				if t.attrs == nil || len(t.ci.Children) != 2 {
+					return false
+				}
+				flipLeaf(t.ci.Children[1].Children[0])
+				nd := sha256Of(t.ci.Children[1].Children[0].Content())
+				n := t.si.Clone()
+				for j, ch := range n.Children {
+					if ch.Tag == 0xa0 {
+						setDigest(ch, nd)
+					}
+					if ch.Tag == 0x04 && sigKind == "garbage signature" {
+						n.Children[j].Val = bytes.Repeat([]byte{0x01}, len(ch.Val))
+					}
+				}
+				if first {
+					t.signers.Children = append([]*der.Node{n}, t.signers.Children...)
+				} else {
+					t.signers.Children = append(t.signers.Children, n)
+				}
+				return true
+			})
+		}
 	}
 	add("no SignerInfo", func(t *p7Tree) bool {
 		t.signers.Children = nil
